@@ -360,4 +360,89 @@ theorem clamp_mod_L_ne (hL : Nat.Prime L) (d : Bytes) (hd : 32 ≤ d.length) : d
   unfold L at this
   omega
 
+/-! ### Lemmas used by the EdDSA theorems of `Props/C08.lean` -/
+section eddsaHelpers
+attribute [local irreducible] Ed25519.smul Ed25519.add Ed25519.neg Ed25519.dec
+
+/-- From the last equation of `VerifyWithChecks`: the points are equal, hence `s•B − h•A = R`. -/
+theorem equation_points (E : EdLaws G) {R A : Edwards.Pt} (hR : Valid R) (hA : Valid A) (s h : Nat)
+    (heq : equationHolds R A s h = true) :
+    E.φ R + h • E.φ A = s • E.φ base := by
+  unfold equationHolds at heq
+  have h1 := of_decide_eq_true heq
+  have hv1 : Valid (add R (smul h A)) := E.valid_add _ _ hR (E.valid_smul _ _ hA)
+  have hv2 : Valid (smul s base) := E.valid_smul _ _ E.valid_base
+  have h2 := E.enc_inj hv1 hv2 h1
+  have h3 := congrArg E.φ h2
+  rw [E.φ_add _ _ hR (E.valid_smul _ _ hA), E.φ_smul _ _ hA, E.φ_smul _ _ E.valid_base] at h3
+  exact h3
+
+theorem top_byte_of_lt_L (sb : Bytes) (hlen : sb.length = 32) (h : decodeLE sb < L) :
+    (sb.getD 31 0 &&& 224 != 0) = false := by
+  obtain ⟨b0, mid, b31, rfl, hmid⟩ := len32_split sb hlen
+  have hg31 : (b0 :: (mid ++ [b31])).getD 31 0 = b31 := by
+    simp [List.getD_eq_getElem?_getD, hmid]
+  rw [hg31]
+  have hval : decodeLE (b0 :: (mid ++ [b31])) = b0.toNat + 256 * (decodeLE mid + 256 ^ 30 * b31.toNat) := by
+    simp only [decodeLE, decodeLE_append, hmid]; ring
+  rw [hval] at h
+  unfold L at h
+  have hb : b31.toNat < 32 := by omega
+  have : b31 &&& 224 = 0 := by
+    apply UInt8.toNat_inj.mp
+    rw [UInt8.toNat_and]
+    exact (nat_and224 b31.toNat (UInt8.toNat_lt b31)).mpr hb
+  simp [this]
+
+theorem L_pos : 0 < L := by unfold L; norm_num
+
+/-- The encoding of any point passes `point.IsCanonical`. -/
+theorem ptIsCanonical_enc (P : Edwards.Pt) : ptIsCanonical (enc P) = true := by
+  rw [ptIsCanonical_iff]
+  refine ⟨enc_length P, ?_⟩
+  unfold enc Edwards.enc
+  have hy : P.y % curve.p < p := Nat.mod_lt _ p_pos
+  have hb : P.x % curve.p % 2 < 2 := Nat.mod_lt _ (by norm_num)
+  rw [decodeLE_encodeLE_of_lt]
+  · have : (P.y % curve.p + 2 ^ 255 * (P.x % curve.p % 2)) % 2 ^ 255 = P.y % curve.p := by
+      unfold p at hy; omega
+    rw [this]; exact hy
+  · unfold p at hy
+    have : (256 : Nat) ^ 32 = 2 ^ 256 := by norm_num
+    rw [this]; omega
+
+/-- The 32-byte encoding of a reduced scalar passes `scalar.IsCanonical`. -/
+theorem scIsCanonical_encode {s : Nat} (hs : s < L) : scIsCanonical (encodeLE 32 s) = true := by
+  rw [scIsCanonical_iff]
+  refine ⟨by simp, ?_⟩
+  rw [decodeLE_encodeLE_of_lt]
+  · exact hs
+  · unfold L at hs; have : (256 : Nat) ^ 32 = 2 ^ 256 := by norm_num
+    rw [this]; omega
+
+theorem decode_encode_scalar {s : Nat} (hs : s < L) : decodeLE (encodeLE 32 s) = s := by
+  rw [decodeLE_encodeLE_of_lt]
+  unfold L at hs; have : (256 : Nat) ^ 32 = 2 ^ 256 := by norm_num
+  rw [this]; omega
+
+/-- `k•B` with `k` not a multiple of `L` is not of small order. -/
+theorem smul_base_not_smallOrder (E : EdLaws G) (hL : Nat.Prime L) (k : Nat) (hk : k % L ≠ 0) :
+    hasSmallOrder (smul k base) = false := by
+  by_contra hne
+  have hso : hasSmallOrder (smul k base) = true := by simpa using hne
+  have hv := E.valid_smul k base E.valid_base
+  have h8 := hasSmallOrder_smul8 E hv hso
+  have h9 := congrArg E.φ h8
+  rw [E.φ_smul _ _ hv, E.φ_smul _ _ E.valid_base, E.φ_zero, ← mul_smul, E.smul_base_eq_zero_iff hL] at h9
+  have hdvd : L ∣ 8 * k := Nat.dvd_of_mod_eq_zero h9
+  rcases (Nat.Prime.dvd_mul hL).mp hdvd with h | h
+  · have := Nat.le_of_dvd (by norm_num) h
+    unfold L at this; omega
+  · exact hk (Nat.mod_eq_zero_of_dvd h)
+
+theorem smul_zero_base : smul 0 base = Edwards.zero := by
+  unfold smul Edwards.smul; rfl
+
+end eddsaHelpers
+
 end Kyber.SigEd
